@@ -1,6 +1,6 @@
 """C20 - calibration reprices its target; derived parameters stay in sync with updates.
 
-Five sub-checks, all complete enumerations of the stated finite spaces on the real code.
+Six sub-checks, all complete enumerations of the stated finite spaces on the real code.
 
  calib-atm / calib-default / calib-product   (lattice sweep)
      exponential models of the four calibratable types (HEM, Merton, CGMY, VG) x start parameter sets (2; CGMY 5 in the
@@ -78,6 +78,35 @@ Five sub-checks, all complete enumerations of the stated finite spaces on the re
      leaked from another call does not reprice); the deep snapshot of EVERY model of the scene (the one given and the
      others, copies and shared-parameter siblings included) is identical before / immediately after every calibration; at
      the end every model of the scene passes the behaviour battery against a directly constructed twin.
+
+ calib-recal   (calibration histories whose START model is already calibrated, or almost: second pass after a small move of
+     the quote, bump-and-recalibrate, recalibration of a calibrated model)
+     per family x function x calibrated parameter x problem (quick: default calibration (T, vol) in {(1, .2), (.25, .2),
+     (1, .1), (.5, .1), (.25, .35)} and the second start set at (1, .2); ATM call: every parameter of the menu at (1, .2),
+     the default one at (.25, .35), the last one from the second start set at (.5, .1); product route: put 1.1 T = .25
+     x* = 30 %, call 1.0 T = 1 x* = 70 %, second parameter with the put; thorough: both start sets x T in {.25, .5, 1} x vol
+     in {.1, .2, .35} x every parameter, four products) x route by which the model holding a returned VALUE is built
+     (ctor | reinit | deepcopy; the default calibration hands over the returned object itself):
+       first pass from the start set; then the returned model is calibrated again
+       star     to the quote (volatility requested / market price) moved by relative 0 (same quote again), 1e-9, 1e-7, 4e-6,
+                -7e-6, 1e-4, 1e-2, each time from the model of the first pass
+       chain    to the same quotes in that order, each time from the model returned by the step before
+       rounded  from a model holding the first-pass value rounded to 6 significant digits, to the quote of the first pass
+       other    (value-returning functions) the NEXT parameter of the menu of the calibrated model, quote moved by 0 / 4e-6 /
+                1e-4; reference: the same model with that parameter displaced to a + 0.37 (b - a)
+       halves   (value-returning functions) quote moved by 4e-6, on the lower and the upper half of the interval (one of them
+                does not hold the start value)
+       input    the INPUT object of the first pass once more, quote moved by 0 / 4e-6
+     Oracle: every outcome judged like a first pass (value in the interval GIVEN, the directly constructed model reprices
+     the NEW target within the root-finder tolerance above, raise only without a bracketed root, model given untouched,
+     default calibration: the whole oracle of the returned model), and the answer does not depend on the value the
+     calibrated parameter had in the start model: equal, within 8 (xtol + rtol |x|) + 1e-11 max(1, |price|) / slope, to the
+     first-pass answer for the same target (from a freshly constructed start-set model / the displaced model); not compared
+     when the slope is 0 or one side raised (counted).  First passes without a solution (e.g. volatility 0.1 below the jump
+     volatility of the HEM / Merton start set) end the case (counter recal_first_pass_without_value).
+     Violation keys: C20:calib:<function>:recalibration:<class>:... and C20:recal:<function>:answer-depends-on-the-start-
+     value-of-the-calibrated-parameter:<family>:<parameter>:<class>, class = same-quote | quote-moved-by-less-than-1e-5 |
+     quote-moved-by-more-than-1e-5 | rounded-start-value | other-parameter:* | half-interval-* | input-object-again:*.
 
  calib-neighbours   (two calibration problems that differ in exactly ONE thing, solved one after the other in one process)
      per family x function (run_default_calibration | calibrate_model_parameter_to_atm_call | calibrate_model_parameter with
@@ -166,7 +195,8 @@ RULE = (
     "complete product family x start set x rates x calibrated parameter x maturity x target x construction route x call form x "
     "argument form (calibration), complete product family x function x one-difference variant x order x models kept / "
     "discarded (neighbouring calibration problems), every valid operation sequence up to the length bound on one scene of re-used / shared / copied models "
-    "(calibration histories), BFS over all assignment / initialisation / use / copy histories up to the depth bound per "
+    "(calibration histories), complete product family x function x parameter x problem x rebuild route x quote move x {star, chain, "
+    "rounded start, other parameter, half interval, input object again} (re-calibration of an already calibrated model), BFS over all assignment / initialisation / use / copy histories up to the depth bound per "
     "Parameters class, complete product factory x value x assignment route (constraints); a case is non-trivial when a "
     "calibration returned and was re-priced on a fresh model or raised and the bracket was examined, or when at least one "
     "updated-vs-fresh model comparison was made; distinct = case dict"
@@ -2237,11 +2267,13 @@ def _sub_calib_recal(sh, case):
        rounded from a model holding the first-pass value rounded to 6 significant digits, to the quote of the first pass;
        other   (value-returning functions) ANOTHER parameter of the menu of the calibrated model is calibrated to the quote
                moved by 0 / 4e-6 / 1e-4;
+       halves  (value-returning functions) the model of the first pass is calibrated again, quote moved by 4e-6, on the lower
+               and on the upper half of the interval (one of them does not hold the start value: no root there as a rule);
        input   the INPUT object of the first pass is calibrated again to the quote moved by 0 / 4e-6.
     Oracle: every outcome is judged like a first-pass calibration (value inside the interval, the directly constructed model
     reprices the NEW target within the root-finder tolerance, a raise only without a bracketed root, input untouched; default
     calibration: the whole oracle of the returned model); and the answer does not depend on the value the calibrated
-    parameter had in the start model: it equals, within 4 (xtol + rtol |x|) + 1e-11 max(1, |price|) / slope, the answer for
+    parameter had in the start model: it equals, within 8 (xtol + rtol |x|) + 1e-11 max(1, |price|) / slope, the answer for
     the same target from a model that holds a + 0.37 (b - a) instead (star / chain / rounded / input: from the start set
     itself)."""
     from rpylib.model import utils as U
@@ -2327,7 +2359,7 @@ def _sub_calib_recal(sh, case):
         if not (math.isfinite(slope) and slope > 0.0):
             sh.count("oracle_inconclusive")
             return
-        tol = 4.0 * (XTOL + RTOL_BRENT * abs(x_ref)) + 1e-11 * max(1.0, abs(market)) / slope
+        tol = 8.0 * (XTOL + RTOL_BRENT * abs(x_ref)) + 1e-11 * max(1.0, abs(market)) / slope
         sh.nontriv()
         sh.cls("recal:same-answer:" + ("bit-identical" if x == x_ref else "within-tolerance" if abs(x - x_ref) <= tol else "differs"))
         if not (abs(x - x_ref) <= tol):
@@ -2396,6 +2428,19 @@ def _sub_calib_recal(sh, case):
                     continue
                 x_ref, _ = solve(m_ref, q, what + " (reference: displaced start value)", pn=pn2, iv=tuple(iv2), values=displaced)
                 same_answer(x, x_ref, q, vals1, what, tag, pn=pn2, iv=tuple(iv2))
+    # ---- the same parameter on the two halves of the interval: the start value lies in one of them at most
+    if fnk != "default":
+        lo, hi = min(interval), max(interval)
+        mid = 0.5 * (lo + hi)
+        for half, iv in (("lower", (lo, mid)), ("upper", (mid, hi))):
+            inside = iv[0] <= x0 <= iv[1]
+            tag = "half-interval-" + ("holding" if inside else "excluding") + "-the-start-value"
+            what = f"the model of the first pass calibrated again on the {half} half {iv} of the interval, quote moved by 4e-06"
+            q = quotes[RECAL_MOVES.index(4e-6)]
+            x, _ = solve(model1, q, what, iv=iv, tag=tag)
+            if inside and iv[0] < x0 < iv[1]:
+                same_answer(x, refs[RECAL_MOVES.index(4e-6)], q, start, what, tag, iv=iv)
+            sh.cls("recal:" + tag)
     # ---- the input object of the first pass, once more
     for dl in (0.0, 4e-6):
         i = RECAL_MOVES.index(dl)
